@@ -779,6 +779,82 @@ func (o nop) String() string {
 	return "outer.Draw()"
 }
 
+// nestedThreeLevels: root[mid[in[leaf]], Z(fill 1)] with the five construction steps in every
+// order (120 permutations); after two Draws - no explicit Resize - the leaf has its preferred
+// width, Z has exactly the surplus, and after the leaf is removed again Z has everything.
+func nestedThreeLevels() {
+	if *hc.Shard != 0 {
+		return
+	}
+	var perms [][]int
+	var rec func(cur []int, used int)
+	rec = func(cur []int, used int) {
+		if len(cur) == 5 {
+			perms = append(perms, append([]int{}, cur...))
+			return
+		}
+		for i := 0; i < 5; i++ {
+			if used&(1<<uint(i)) == 0 {
+				rec(append(cur, i), used|1<<uint(i))
+			}
+		}
+	}
+	rec(nil, 0)
+	names := []string{"root.AddWidget(mid,0)", "mid.AddWidget(in,0)", "in.AddWidget(leaf 2x1,0)", "root.SetView(8x5)", "root.AddWidget(Z 1x1,1)"}
+	for _, ext := range []int{8, 3} {
+		for _, pm := range perms {
+			w.R.Evaluations++
+			parent := &recView{w: ext, h: 5}
+			root, mid, in := views.NewBoxLayout(views.Horizontal), views.NewBoxLayout(views.Horizontal), views.NewBoxLayout(views.Horizontal)
+			leaf := &recWidget{id: 'L', pw: 2, ph: 1}
+			z := &recWidget{id: 'Z', pw: 1, ph: 1}
+			var hist []string
+			for _, st := range pm {
+				hist = append(hist, names[st])
+				switch st {
+				case 0:
+					root.AddWidget(mid, 0)
+				case 1:
+					mid.AddWidget(in, 0)
+				case 2:
+					in.AddWidget(leaf, 0)
+				case 3:
+					root.SetView(parent)
+				case 4:
+					root.AddWidget(z, 1)
+				}
+			}
+			count := func() (l, zc int) {
+				paint(parent, root)
+				got := paint(parent, root)
+				lc, zcs := map[int]bool{}, map[int]bool{}
+				for p, r := range got {
+					if r == 'L' {
+						lc[p[0]] = true
+					}
+					if r == 'Z' {
+						zcs[p[0]] = true
+					}
+				}
+				return len(lc), len(zcs)
+			}
+			l, zc := count()
+			if l != 2 || zc != ext-2 {
+				w.Violation("box-nested-three-levels", fmt.Sprintf("root[mid[in[leaf]], Z(fill 1)] on a %dx5 view, built as %s, after two Draws: the leaf (preferred width 2) is %d columns wide and Z %d; want 2 and %d", ext, strings.Join(hist, "; "), l, zc, ext-2),
+					map[string]interface{}{"order": pm, "ext": ext})
+				continue
+			}
+			in.RemoveWidget(leaf)
+			l, zc = count()
+			if l != 0 || zc != ext {
+				w.Violation("box-nested-three-levels-remove", fmt.Sprintf("root[mid[in[leaf]], Z(fill 1)] on a %dx5 view, built as %s; after in.RemoveWidget(leaf) and two Draws the leaf paints %d columns and Z %d; want 0 and %d", ext, strings.Join(hist, "; "), l, zc, ext),
+					map[string]interface{}{"order": pm, "ext": ext})
+			}
+			w.AddDistinct(1)
+		}
+	}
+}
+
 func buildNested(ext int, model []nleaf, innerHoriz ...bool) (*recView, *views.BoxLayout, *views.BoxLayout, *recWidget, *recWidget, []*recWidget) {
 	parent := &recView{w: ext, h: 5}
 	outer := views.NewBoxLayout(views.Horizontal)
@@ -1095,6 +1171,7 @@ func main() {
 	nested()
 	nestedHistories()
 	nestedBottomUp()
+	nestedThreeLevels()
 	for i := int64(0); i < w.R.States; i++ {
 		w.Distinct(uint64(*hc.Shard)<<40 | uint64(i))
 	}
